@@ -45,6 +45,14 @@ def world_edges(world):
 
 def generate(streams, tier):
     big = tier == "thorough"
+    rc = streams.s("long_chain")
+    if rc.random() < (0.004 if big else 0.012):   # ten seconds of CPU per run
+        # scale: a clique tree that is one long path (an unrolled HMM of more than a thousand steps).  Depth, not width: whatever walks
+        # the tree must not assume it is shallow.  Reference: forward-backward recursion in numpy.
+        L = rc.randint(1030, 1150)
+        return {"long_chain": {"L": L, "seed": rc.randrange(2**31), "q": sorted(rc.sample(range(L), 3)), "ev": rc.randrange(L), "ev_state": rc.randrange(2)},
+                "world": {"kind": "chain", "n": L, "card": [], "labels": [], "states": [], "flags": {}}, "config": {"kind": "long_chain"}, "shared_engine": True,
+                "ops": [{"op": "calibrate"}, {"op": "query"}], "backend": "numpy"}
     r = streams.s("kind")
     kind = weighted(r, [("bn", 4), ("mn", 3), ("fg", 2), ("jt", 2)])
     if kind == "bn":
@@ -138,6 +146,8 @@ def gen_query(r, world, ref, allow_virtual):
 
 
 def describe(case):
+    if case.get("long_chain"):
+        return {"kind": "long_chain", "L": case["long_chain"]["L"]}
     w = case["world"]
     return {"kind": case["config"]["kind"], "n": w["n"], "card": w["card"], "labels": w["labels"],
             "factor_scopes": [f["scope"] for f in world_factors(w)], "shared_engine": case["shared_engine"], "ops": case["ops"][:4]}
@@ -207,9 +217,93 @@ def build_model(case, names):
     return jt
 
 
+def _long_chain(case, ctx):
+    """A path-shaped junction tree of L-1 pairwise cliques over binary variables; beliefs and queries against forward-backward."""
+    from pgmpy.factors.discrete import DiscreteFactor
+    from pgmpy.inference import BeliefPropagation
+    from pgmpy.models import JunctionTree
+
+    lc = case["long_chain"]
+    L = lc["L"]
+    rng = np.random.default_rng(lc["seed"])
+    # row-stochastic transition tables (an HMM's hidden chain), the first clique carries the initial distribution: every partial
+    # product stays inside the floating-point range
+    pots = rng.integers(1, 9, size=(L - 1, 2, 2)).astype(float)
+    pots = pots / pots.sum(axis=2, keepdims=True)
+    pots[0] = pots[0] * np.array([[0.3], [0.7]])
+    names_ = ["x%04d" % i for i in range(L)]
+    jt = JunctionTree()
+    cliques = [(names_[i], names_[i + 1]) for i in range(L - 1)]
+    jt.add_nodes_from(cliques)
+    for a, b in zip(cliques, cliques[1:]):
+        # networkx directly: JunctionTree.add_edge runs a path search per edge (quadratic for a path); the sepsets are non-empty by construction
+        super(JunctionTree, jt).add_edge(a, b)
+    jt.add_factors(*[DiscreteFactor(list(c), [2, 2], pots[i].reshape(-1)) for i, c in enumerate(cliques)])
+    ctx.event("long_chain", L)
+    ctx.probe("long_chain_world")
+
+    def fb(ev=None):
+        # normalised forward / backward messages over the variables; ev = (index, state) or None
+        mask = np.ones((L, 2))
+        if ev is not None:
+            mask[ev[0]] = 0.0
+            mask[ev[0], ev[1]] = 1.0
+        f = np.zeros((L, 2)); b = np.zeros((L, 2))
+        f[0] = mask[0] / mask[0].sum()
+        for i in range(1, L):
+            m = (f[i - 1] @ pots[i - 1]) * mask[i]
+            f[i] = m / m.sum()
+        b[L - 1] = mask[L - 1] / mask[L - 1].sum()
+        for i in range(L - 2, -1, -1):
+            m = (pots[i] @ b[i + 1]) * mask[i]
+            b[i] = m / m.sum()
+        return f, b
+
+    f, b = fb()
+    try:
+        bp = BeliefPropagation(jt)
+        ctx.steps += 1
+        bp.calibrate()
+        cb = bp.get_clique_beliefs()
+    except Exception as e:
+        ctx.fail("succeeds", f"{PROP}:raise:long_chain:calibrate:{type(e).__name__}:{exc_site(e)}", exc_brief(e))
+        return
+    ctx.checked += 1
+    for i in sorted(set([0, L - 2] + [int(x) for x in rng.integers(0, L - 1, size=12)])):
+        want = f[i][:, None] * pots[i] * b[i + 1][None, :]
+        want = want / want.sum()
+        phi = cb[cliques[i]]
+        got = to_np(phi.values)
+        if list(phi.variables) != list(cliques[i]):
+            got = got.T
+        got = got / got.sum()
+        if not close(got, want, atol=1e-9, rtol=1e-6):
+            ctx.fail("calibrated", f"{PROP}:belief:long_chain", {"clique": i, "got": got.round(6).tolist(), "want": want.round(6).tolist()})
+            return
+    e_i, e_s = lc["ev"], lc["ev_state"]
+    qs = [q for q in lc["q"] if q != e_i][:2]
+    fe, be = fb((e_i, e_s))
+    try:
+        ctx.steps += 1
+        res = bp.query([names_[q] for q in qs], evidence={names_[e_i]: e_s}, joint=False, show_progress=False)
+    except Exception as e:
+        ctx.fail("succeeds", f"{PROP}:raise:long_chain:query:{type(e).__name__}:{exc_site(e)}", exc_brief(e))
+        return
+    ctx.checked += 1
+    for q in qs:
+        want = fe[q] * be[q]
+        want = want / want.sum()
+        got = to_np(res[names_[q]].values)
+        if not close(got, want, atol=1e-9, rtol=1e-6):
+            ctx.fail("value", f"{PROP}:value:long_chain_query", {"q": q, "evidence": [e_i, e_s], "got": got.round(6).tolist(), "want": want.round(6).tolist()})
+            return
+
+
 def execute(case, ctx):
     from pgmpy.inference import BeliefPropagation
 
+    if case.get("long_chain"):
+        return _long_chain(case, ctx)
     world, cfg = case["world"], case["config"]
     names = Names(world)
     kind = cfg["kind"]
@@ -368,6 +462,8 @@ def check_query(ctx, names, ref, res, q, ev, virt, joint, kind):
 
 
 def shrink_candidates(case):
+    if case.get("long_chain"):
+        return
     w = case["world"]
     if case.get("backend", "numpy") != "numpy":
         c = copy.deepcopy(case)
